@@ -529,3 +529,81 @@ def mac_check(ctx, esc):
             passing = 'F' if isinstance(c.ast.ops[0], ast.NotEq) else 'T'
             found.append((fi, g, c, passing, inl[comp[0]], inl[1 - comp[0]]))
     return found
+
+
+# ---------------------------------------------------------------------------------------
+def _kw(call):
+    return {k.arg: k.value for k in call.keywords if k.arg}
+
+
+def selector_orientation(ctx, rule, fi, sel_call, who):
+    """XfrmSelector(...) keyword arguments are fed from the like-oriented parameters of fi"""
+    kw = {k: src(v) for k, v in _kw(sel_call).items()}
+    fam4 = 'socket.AF_INET if src_selector[0].version == 4 else socket.AF_INET6'
+    fam6 = 'socket.AF_INET6 if src_selector[0].version == 6 else socket.AF_INET'
+    want = {'daddr': 'XfrmAddress.from_ipaddr(dst_selector[0])', 'saddr': 'XfrmAddress.from_ipaddr(src_selector[0])',
+            'dport': 'dst_port', 'sport': 'src_port', 'prefixlen_d': 'dst_selector.prefixlen',
+            'prefixlen_s': 'src_selector.prefixlen', 'proto': 'ip_proto'}
+    for k, v in want.items():
+        ctx.check(kw.get(k) == v, rule, '%s: selector %s = %s' % (who, k, v), key=(rule, who, 'sel', k), site=ctx.site(fi, sel_call),
+                  detail={'found': kw.get(k)})
+    ctx.check(kw.get('family') in (fam4, fam6), rule, '%s: selector family follows the IP version of the selector' % who,
+              key=(rule, who, 'sel', 'family'), site=ctx.site(fi, sel_call), detail={'found': kw.get('family')})
+    for m, p in (('dport_mask', 'dst_port'), ('sport_mask', 'src_port')):
+        ok = kw.get(m) in ('0 if %s == 0 else 65535' % p, '65535 if %s != 0 else 0' % p, '65535 if %s else 0' % p)
+        ctx.check(ok, rule, '%s: %s is 0 for port 0 and 0xFFFF otherwise, tied to %s' % (who, m, p), key=(rule, who, 'sel', m),
+                  site=ctx.site(fi, sel_call), detail={'found': kw.get(m)})
+    extra = set(kw) - set(want) - {'family', 'dport_mask', 'sport_mask'}
+    ctx.check(not extra, rule, '%s: no other selector field is set' % who, key=(rule, who, 'sel', 'extra', ','.join(sorted(extra))),
+              site=ctx.site(fi, sel_call))
+
+
+def create_sa_orientation(ctx, rule):
+    """Xfrm.create_sa puts each parameter into the like-oriented field of the NEWSA request"""
+    fi = ctx.func('xfrm.Xfrm.create_sa')
+    calls = [n for n in walk_no_nested(fi.node) if isinstance(n, ast.Call)]
+
+    def named(name):
+        return [c for c in calls if (isinstance(c.func, ast.Name) and c.func.id == name)]
+    us = named('XfrmUserSaInfo')
+    ctx.check(len(us) == 1, rule, 'create_sa builds one xfrm_usersa_info', key=(rule, 'usersa'), site=ctx.site(fi, fi.node))
+    if len(us) != 1:
+        return
+    kw = _kw(us[0])
+    sel = kw.get('sel')
+    ctx.check(isinstance(sel, ast.Call) and src(sel.func) == 'XfrmSelector', rule, 'with a selector', key=(rule, 'sel'), site=ctx.site(fi, us[0]))
+    if isinstance(sel, ast.Call):
+        selector_orientation(ctx, rule, fi, sel, 'create_sa')
+    idc = kw.get('id')
+    idk = {k: src(v) for k, v in _kw(idc).items()} if isinstance(idc, ast.Call) and src(idc.func) == 'XfrmId' else {}
+    ctx.check(idk == {'daddr': 'XfrmAddress.from_ipaddr(dst)', 'proto': 'ipsec_proto', 'spi': 'create_byte_array(spi)'}, rule,
+              'create_sa: the SA is identified by (destination address, IPsec protocol, SPI)', key=(rule, 'id'), site=ctx.site(fi, us[0]),
+              detail={'found': idk})
+    ctx.check(src(kw.get('saddr')) == 'XfrmAddress.from_ipaddr(src)', rule, 'create_sa: source address = src', key=(rule, 'saddr'),
+              site=ctx.site(fi, us[0]))
+    ctx.check(src(kw.get('family')) in ('socket.AF_INET if src.version == 4 else socket.AF_INET6',
+                                        'socket.AF_INET6 if src.version == 6 else socket.AF_INET'), rule,
+              'create_sa: family follows the tunnel endpoint\'s IP version', key=(rule, 'family'), site=ctx.site(fi, us[0]))
+    ctx.check(src(kw.get('mode')) == 'mode', rule, 'create_sa: mode = mode', key=(rule, 'mode'), site=ctx.site(fi, us[0]))
+    # attributes
+    stores = {}
+    for n in walk_no_nested(fi.node):
+        if isinstance(n, ast.Assign) and isinstance(n.targets[0], ast.Subscript) and src(n.targets[0].value) == 'attributes':
+            stores[src(n.targets[0].slice)] = (n, {k: src(v) for k, v in _kw(n.value).items()} if isinstance(n.value, ast.Call) else {},
+                                               src(n.value.func) if isinstance(n.value, ast.Call) else '')
+    ok = set(stores) == {'XFRMA_ALG_CRYPT', 'XFRMA_ALG_AUTH'} and all(f == 'XfrmAlgo.build' for _, _, f in stores.values()) \
+        and stores['XFRMA_ALG_CRYPT'][1] == {'alg_name': 'enc_algorithm', 'key': 'sk_e'} \
+        and stores['XFRMA_ALG_AUTH'][1] == {'alg_name': 'auth_algorithm', 'key': 'sk_a'}
+    ctx.check(ok, rule, 'create_sa: XFRMA_ALG_CRYPT carries (enc_algorithm, sk_e) and XFRMA_ALG_AUTH carries (auth_algorithm, sk_a)',
+              key=(rule, 'algs'), site=ctx.site(fi, fi.node), detail={k: v[1] for k, v in stores.items()})
+    if ok:
+        ifs = [n for n in walk_no_nested(fi.node) if isinstance(n, ast.If) and stores['XFRMA_ALG_CRYPT'][0] in n.body]
+        ctx.check(len(ifs) == 1 and src(ifs[0].test) == 'ipsec_proto == socket.IPPROTO_ESP' and not ifs[0].orelse, rule,
+                  'create_sa: the encryption algorithm is attached exactly for ESP', key=(rule, 'crypt-esp'), site=ctx.site(fi, fi.node))
+        ifs2 = [n for n in walk_no_nested(fi.node) if isinstance(n, ast.If) and stores['XFRMA_ALG_AUTH'][0] in ast.walk(n)]
+        ctx.check(not ifs2, rule, 'create_sa: the integrity algorithm is always attached', key=(rule, 'auth-always'), site=ctx.site(fi, fi.node))
+    sr = [c for c in calls if isinstance(c.func, ast.Attribute) and c.func.attr == 'send_recv']
+    ctx.check(len(sr) == 1 and [src(a) for a in sr[0].args] == ['XFRM_MSG_NEWSA', 'NLM_F_REQUEST | NLM_F_ACK', src(
+        [t for n in walk_no_nested(fi.node) if isinstance(n, ast.Assign) and n.value is us[0] for t in n.targets][0]), 'attributes'],
+        rule, 'create_sa sends XFRM_MSG_NEWSA with REQUEST|ACK, that structure and those attributes', key=(rule, 'send'),
+        site=ctx.site(fi, fi.node))
